@@ -10,9 +10,9 @@ import (
 
 func init() { Checks["C11"] = CheckC11 }
 
-var c11Points = []string{"before-HS", "after-HS", "after-TC", "after-TA", "after-CC-idle", "client-data-in-flight", "host-data-in-flight", "both-in-flight", "host-data-client-stalled"}
+var c11Points = []string{"before-HS", "after-HS", "after-TC", "after-TA", "after-CC-idle", "client-data-in-flight", "host-data-in-flight", "both-in-flight", "host-data-client-stalled", "channel-create-in-flight"}
 var c11EndWS = []string{"close-channel", "out-of-order", "unframeable", "fin-ws", "rst-ws"}
-var c11EndLegacy = []string{"close-channel", "out-of-order", "unframeable", "fin-in", "rst-in", "fin-out", "rst-out"}
+var c11EndLegacy = []string{"close-channel", "out-of-order", "unframeable", "fin-in", "rst-in", "fin-out", "rst-out", "end-in-body"}
 
 type c11Cell struct {
 	Point     int    `json:"point_index"`
@@ -28,7 +28,7 @@ type c11Baseline struct {
 
 func CheckC11(l *Lab, verifDir string) int {
 	rep := NewReport("C11", l.Tier, l.Seed, "fault_enumeration", verifDir)
-	rep.Rule = "complete enumeration of cells {point of the exchange: before handshake, after each of the four steps, client data / host data / both in flight} x {way of ending: CLOSE_CHANNEL, out-of-order packet, unframeable bytes, FIN / RST of the websocket, FIN / RST of legacy IN, FIN / RST of legacy OUT} x transport (108 cells; the ninth point is a client that stopped reading while the host keeps sending, so that the relay's write is blocked when the tunnel ends), a third of the legacy tunnels also get a refused second RDG_IN_DATA request under their own id before the ending, plus a legacy stress in which the OUT connection is dropped at PRNG offsets around the arrival of the IN request, each cell run R times (quick 6, thorough 40) with PRNG pacing and delay points against the race-instrumented real binary. Oracle per tunnel (bounded progress, W=15s): the host connection reaches EOF/RST, every client-facing connection reaches EOF/RST; per cell at quiescence: registry add/del events balance and size is back, no goroutine with a frame in the gateway's protocol/transport packages remains, connection gauges are back at the baseline. non-trivial = the ending was delivered to a live tunnel; distinct = cell x repetition outcome"
+	rep.Rule = "complete enumeration of cells {point of the exchange: before handshake, after each of the four steps, client data / host data / both in flight} x {way of ending: CLOSE_CHANNEL, out-of-order packet, unframeable bytes, FIN / RST of the websocket, FIN / RST of legacy IN, FIN / RST of legacy OUT, proper end of the chunked IN body} x transport (130 cells; the ninth point is a client that stopped reading while the host keeps sending, so that the relay's write is blocked when the tunnel ends; the tenth delivers the ending right behind an unanswered channel-create request), a third of the legacy tunnels also get a refused second RDG_IN_DATA request under their own id before the ending, plus a legacy stress in which the OUT connection is dropped at PRNG offsets around the arrival of the IN request, each cell run R times (quick 6, thorough 40) with PRNG pacing and delay points against the race-instrumented real binary. Oracle per tunnel (bounded progress, W=15s): the host connection reaches EOF/RST, every client-facing connection reaches EOF/RST; per cell at quiescence: every connection any host accepted has reached EOF/RST, registry add/del events balance and size is back, no goroutine with a frame in the gateway's protocol/transport packages remains, connection gauges are back at the baseline. non-trivial = the ending was delivered to a live tunnel; distinct = cell x repetition outcome"
 	rep.SetExhaustive(true)
 	rep.Assume("backends never hang up first; a fired watchdog (15 s, >= 1000x the release time of a correct implementation) is a violation only when the gateway process is alive and answering")
 	var cells []c11Cell
@@ -112,6 +112,24 @@ func CheckC11(l *Lab, verifDir string) int {
 				} else {
 					rep.Inconclusive("gateway not alive at quiescence check")
 				}
+			}
+			// every connection the hosts accepted during the cell has been closed by the gateway
+			// (also those of tunnels that ended while their channel was being created)
+			for _, u := range m.Users {
+				if err := u.B.Barrier(); err != nil {
+					continue
+				}
+				for _, bc := range u.B.Conns() {
+					if !bc.WaitEnd(15 * time.Second) {
+						if m.GW.Alive() {
+							rep.Violate(fmt.Sprintf("C11/backend-connection-left-open/%s/%s/%s", cell.Transport, cell.Ending, cell.PointName),
+								fmt.Sprintf("all tunnels of the cell have ended, a connection to host %s (accepted from %s) is still open 15 s later", u.B.Addr(), bc.Peer), map[string]any{"cell": cell, "results": results})
+						}
+						bc.C.Close()
+					}
+					rep.Count("backend_connections_checked", 1)
+				}
+				u.B.Reset()
 			}
 			// registry balance over the events of the cell
 			adds, dels := map[string]int{}, map[string]int{}
@@ -220,6 +238,9 @@ func c11Run(m *MultiFixture, cell c11Cell, seed int64) *c11Result {
 	if upto > 4 {
 		upto = 4
 	}
+	if cell.Point == 9 {
+		upto = 3 // the channel-create request is sent below, the ending follows without waiting for its response
+	}
 	evFrom := m.GW.EventCount()
 	t, bc, connID, err := m.Stage(env, u, upto)
 	res.ConnID = connID
@@ -290,7 +311,7 @@ func c11Run(m *MultiFixture, cell c11Cell, seed int64) *c11Result {
 			}
 		}()
 	}
-	if cell.Point >= 5 && cell.Point != 8 {
+	if cell.Point >= 5 && cell.Point <= 7 {
 		if cell.Point == 5 {
 			bc.WaitBytes(2000, env.W)
 		} else {
@@ -299,6 +320,10 @@ func c11Run(m *MultiFixture, cell c11Cell, seed int64) *c11Result {
 		time.Sleep(time.Duration(rnd.Intn(2000)) * time.Microsecond)
 	} else if rnd.Intn(2) == 0 {
 		time.Sleep(time.Duration(rnd.Intn(500)) * time.Microsecond)
+	}
+	if cell.Point == 9 {
+		t.Send(SymCCx(u.B).Wire)
+		time.Sleep(time.Duration(rnd.Intn(600)) * time.Microsecond)
 	}
 	if cell.Transport == "legacy" && rnd.Intn(3) == 0 {
 		// a second RDG_IN_DATA request under the id of the live tunnel: refused, and
@@ -333,6 +358,9 @@ func c11Run(m *MultiFixture, cell c11Cell, seed int64) *c11Result {
 		t.Send(PacketLen(PktData, []byte{1, 2, 3, 4, 5, 6, 7, 8}, uint32(rnd.Intn(8))))
 	case "fin-ws", "fin-in":
 		t.CloseWrite()
+	case "end-in-body":
+		// the chunked request body ends properly, the IN connection stays open
+		t.EndChunked()
 	case "rst-ws", "rst-in":
 		t.ResetUp()
 		localEnd["up"] = true
